@@ -1,0 +1,18 @@
+//go:build verif
+
+package persister
+
+// Contracts for the deductive verifier in /verif (comment-only; never compiled without the tag).
+
+// ---------------------------------------------------------------- whisper_schema.go (C16)
+// Match returns the first rule, in list order, whose pattern matches the name.
+//@ spec schemasOK(s WhisperSchemas) bool := forall k int :: 0 <= k && k < len(s) ==> s[k].Pattern != nil
+//@ func (s WhisperSchemas) Match(metric string) (r Schema, ok bool)
+//@   property C16
+//@   requires schemasOK(s)
+//@   ensures[first_match; C16] ok ==> (exists k int :: 0 <= k && k < len(s) && reMatch(s[k].Pattern.src, metric) && (forall j int :: 0 <= j && j < k ==> !reMatch(s[j].Pattern.src, metric))
+//@        && r.Retentions == s[k].Retentions && r.Pattern == s[k].Pattern && r.Priority == s[k].Priority)
+//@   ensures[none; C16] !ok ==> (forall j int :: 0 <= j && j < len(s) ==> !reMatch(s[j].Pattern.src, metric))
+//@   loop 1:
+//@     invariant[idx] 0 <= #i && #i <= len(#s) && #s == s
+//@     invariant[none_so_far] forall j int :: 0 <= j && j < #i ==> !reMatch(s[j].Pattern.src, metric)
